@@ -162,6 +162,11 @@ class T4App(object):
 
     def execute(self, apdu):
         apdu = bytes(apdu)
+        if getattr(self, "refuse_next", False):
+            # the card refuses this command (6F00h, no precise diagnosis):
+            # nothing is executed
+            self.refuse_next = False
+            return b"\x6F\x00"
         self.serial += 1
         self.execlog.append((self.serial, apdu))
         if len(apdu) < 4:
@@ -246,6 +251,13 @@ class T4Tag(TagSim):
         def set_(self, v):
             setattr(self.app, name, v)
         return property(get, set_)
+
+    def refuse(self, cmd):
+        """the card refuses the APDU this block belongs to (status 6F00h when
+        it is complete); block handling as usual"""
+        if bytes(cmd)[:1] and bytes(cmd)[0] & 0xC0 == 0x00:   # an I-block
+            self.app.refuse_next = True
+        return self.command(cmd)
 
     # state that lives in the card application
     dead = _fwd("dead")
